@@ -2,6 +2,7 @@ import Tickit.Proof.EvLoopPoll
 import Tickit.Proof.EvLoopMulti
 import Tickit.Gen.EvLoop
 import Tickit.Model.EvLoopFb
+import Tickit.Proof.EvLoopFbEnd
 /-
   C18 — A delivered signal or ready descriptor always reaches its watchers.   (claimed: partial)
 
@@ -29,15 +30,21 @@ import Tickit.Model.EvLoopFb
     `observer_invariant`, `observer_moves_only_on_build_and_destroy`, `destroying_another_instance_keeps_observer`,
     `destroying_the_observer_clears_it`, `instance_built_observes_iff_nobody_does`, `observer_instance_records_signals`
     (the end-to-end theorem applies to every iteration of the observer instance, whatever was done to the others).
-  Defects of the shipped tree: the `*_counterexample` theorems (corpus/C18).  No statement of the property
-  is left open; `OsPpoll` is assumed.  The default loop serves ONE toplevel instance with signals (its own
+  Defects of the tree as first shipped: the `*_counterexample` theorems (corpus/C18); all are repaired in /repo.
+  No statement of the property is left open; `OsPpoll` is assumed.  The default loop serves ONE toplevel instance with signals (its own
   TODO): `second_instance_*_counterexample` (known findings).
 
-  The self-pipe configuration (event hooks without signal members; Model/EvLoopFb.lean) is covered by the
-  differential run and the executable specification; here only: `fb_handler_records_and_wakes`,
-  `fb_dispatch_starts_from_empty_pending` (all states), the defect `fb_self_cancel_counterexample` /
-  `fb_self_cancel_repaired`, and evaluated schedules of arrival during dispatch (`fb_arrival_during_dispatch_*`).
-  The end-to-end statement `FbSignalReachesWatchers` is open (engines.d/C18.json).
+  The self-pipe configuration (event hooks without signal members: tickit.c's sigaction + self-pipe fallback;
+  Model/EvLoopFb.lean), for every history of one instance, all behaviour tables, any variant of the rest of the source:
+    `fb_signal_bookkeeping_invariant`     the pipe watch and its poll entry are intact in every reachable state, nothing a
+                                          callback can reach names it, a recorded signal has its wake-up byte in the pipe;
+    `fb_signal_reaches_watchers`          end to end: a signal recorded by the handler while a watch is linked leads to that
+                                          watch's callback in the very next iteration, unless the watch is cancelled meanwhile
+                                          (`fb_signal_reaches_watchers_iteration`: the same for one `evloop_run` iteration);
+    `fb_handler_records_and_wakes`, `fb_dispatch_starts_from_empty_pending` (all states), the defect
+    `fb_self_cancel_counterexample` / `fb_self_cancel_repaired`, evaluated schedules `fb_arrival_during_dispatch_*`.
+  The walk of the repaired `tickit_evloop_invoke_sigwatches` is one loop for both configurations (`sigSnapLoopG`); its
+  theorems (`sigsnapG_*`, Proof/EvLoopSig.lean, Proof/EvLoopLog.lean) are proved once.
 -/
 namespace Tickit.Props.C18
 open Tickit Tickit.EvLoop
@@ -435,7 +442,7 @@ theorem fb_dispatch_starts_from_empty_pending (fuel : Nat) (st : St) (h : st.cfg
 
 def fbProbeSelfCancel : List Op := [.beh ⟨0, 0, [.cancel 0]⟩, .act (.signal 0 10 0), .act (.raise 10), .tick]
 
-/-- Defect (known finding `sigpipe_self_cancel_uaf`, repair fixes/C18_sigpipe_dispatch.patch): as found,
+/-- Defect (repaired in /repo: fixes/C18_sigpipe_dispatch.patch): as found,
     `on_sigpipe_readable` reads `this->next` of a signal watch that cancelled itself from its own callback. -/
 theorem fb_self_cancel_counterexample :
     (Fb.runOps { Config.repaired with sigpipeViaInvoke := false } fbProbeSelfCancel).status = .ub .sigLoopThis := by
@@ -456,17 +463,105 @@ theorem fb_arrival_during_dispatch_same :
       = [.cb 0 1 .none, .cb 1 1 .none] := by
   decide +kernel
 
-/-- Open (engines.d/C18.json): in the self-pipe configuration, a signal recorded by the handler while watch `a` is in
-    `t->signals` leads to `a`'s callback in the iteration whose wait begins next, unless `a` is cancelled meanwhile.
-    Needs the invariant `pendingSig ≠ [] → pipeBytes > 0` through every callback (the analogue of
-    `signal_bookkeeping_invariant`) and `signal_reaches_watchers` restated for `Fb.sigDispatch`.  Covered by the
-    executable specification on every generated and enumerated schedule. -/
-def FbSignalReachesWatchers : Prop :=
-  ∀ (st : St) (s : Int) (a : Nat), st.isOk = true → st.alive = true → st.cfg = Config.repaired →
-    st.observer = .self → st.pendingSig.contains s = true → st.pipeBytes > 0 →
-    st.signals.contains a = true → (st.getW a).signum = s → (st.getW a).slot ≥ 0 →
-    (Fb.tick defaultFuel { st with stillRunning := true, log := [] } true).isOk = true →
-    (Fb.tick defaultFuel { st with stillRunning := true, log := [] } true).live a = true →
-    (Fb.tick defaultFuel { st with stillRunning := true, log := [] } true).log.contains (.cb (st.getW a).slot EV_FIRE .none) = true
+/-! #### the self-pipe configuration, end to end (all histories, all behaviour tables, any variant of the rest of the source) -/
+
+/-- The bookkeeping of tickit.c's signal fallback in every state a history reaches (instance alive, behaviour
+    defined), the analogue of `signal_bookkeeping_invariant`: `t->signal.pipewatch` is the third watch `tickit_build`
+    made; it is live, its callback is `on_sigpipe_readable`, its poll entry names the read end of the pipe with POLLIN;
+    nothing a callback can reach names one of the three watches of `tickit_build`; a recorded signal has its wake-up
+    byte in the pipe. -/
+theorem fb_signal_bookkeeping_invariant (cfg : Config) (ops : List Op) (hok : (Fb.runOps cfg ops).isOk = true)
+    (hal : (Fb.runOps cfg ops).alive = true) : Fb.FInv 3 2 (Fb.runOps cfg ops) :=
+  (Fb.freach_runOps cfg ops hok hal).1
+
+/-- … in particular: a signal is never left recorded without a byte in the pipe to wake the loop. -/
+theorem fb_recorded_signal_has_wakeup_byte (cfg : Config) (ops : List Op) (hok : (Fb.runOps cfg ops).isOk = true)
+    (hal : (Fb.runOps cfg ops).alive = true) (h : (Fb.runOps cfg ops).pendingSig ≠ []) : (Fb.runOps cfg ops).pipeBytes > 0 :=
+  (fb_signal_bookkeeping_invariant cfg ops hok hal).bytes h
+
+example : (Fb.runOps .repaired [.act (.signal 0 10 0), .act (.raise 10)]).pendingSig = [10] ∧
+    (Fb.runOps .repaired [.act (.signal 0 10 0), .act (.raise 10)]).pipeBytes = 1 := by decide +kernel
+
+/-- One iteration of `evloop_run` begun in a reachable state (repaired `on_sigpipe_readable` and
+    `tickit_evloop_invoke_sigwatches`; any variant of the rest): every signal the handler has recorded reaches every
+    harness watch of it that is linked when the iteration begins and is still linked when it ends — its FIRE entry is in
+    the log of this iteration, whatever timers, deferred callbacks, io callbacks and the other signal callbacks did.
+    The wait cannot time out or be passed over: the recorded signal's byte makes the pipe readable. -/
+theorem fb_signal_reaches_watchers_iteration (cfg : Config) (ops : List Op) (fuel : Nat) (nohang run : Bool)
+    (hv : cfg.sigpipeViaInvoke = true) (hsn : cfg.sigSnapshot = true)
+    (hok0 : (Fb.runOps cfg ops).isOk = true) (hal : (Fb.runOps cfg ops).alive = true)
+    (hok : (Fb.tick fuel { Fb.runOps cfg ops with stillRunning := run, log := [] } nohang).status = .ok) :
+    ∀ s ∈ signalRange, s ∈ (Fb.runOps cfg ops).pendingSig → ∀ b ∈ (Fb.runOps cfg ops).signals,
+      b ∈ (Fb.tick fuel { Fb.runOps cfg ops with stillRunning := run, log := [] } nohang).signals →
+      ((Fb.runOps cfg ops).getW b).signum = s → ((Fb.runOps cfg ops).getW b).slot ≥ 0 →
+      Ev.cb ((Fb.runOps cfg ops).getW b).slot EV_FIRE .none ∈
+        (Fb.tick fuel { Fb.runOps cfg ops with stillRunning := run, log := [] } nohang).log := by
+  obtain ⟨fi, hc⟩ := Fb.freach_runOps cfg ops hok0 hal
+  have sv := Fb.sinv_runOps cfg ops
+  intro s hs hp b hb hfin hsig hslot
+  exact Fb.tick_reaches fuel { Fb.runOps cfg ops with stillRunning := run, log := [] } nohang
+    (fi.of_same (by exact ⟨rfl, rfl, rfl, rfl, rfl, rfl, rfl, rfl, rfl, rfl, rfl, rfl⟩)) (SInv.of_same (st := Fb.runOps cfg ops) rfl rfl sv)
+    (by show (Fb.runOps cfg ops).cfg.sigpipeViaInvoke = true; rw [hc]; exact hv)
+    (by show (Fb.runOps cfg ops).cfg.sigSnapshot = true; rw [hc]; exact hsn) s hs hp hok b hb hfin hsig hslot
+
+/-- On histories: a signal recorded by tickit.c's handler while watch `b` is linked leads to `b`'s callback in the
+    very next iteration (`tickit_tick`, blocking or not) — without a further signal — unless `b` is cancelled meanwhile
+    (a cancelled watch is freed: it is not live when the iteration ends). -/
+theorem fb_signal_reaches_watchers (cfg : Config) (ops : List Op) (op : Op) (hop : op = .tick ∨ op = .tickhang)
+    (hv : cfg.sigpipeViaInvoke = true) (hsn : cfg.sigSnapshot = true)
+    (hok0 : (Fb.runOps cfg ops).isOk = true) (hal : (Fb.runOps cfg ops).alive = true)
+    (hok : (Fb.runOps cfg (ops ++ [op])).status = .ok) :
+    ∀ s ∈ signalRange, s ∈ (Fb.runOps cfg ops).pendingSig → ∀ b ∈ (Fb.runOps cfg ops).signals,
+      (Fb.runOps cfg (ops ++ [op])).live b = true →
+      ((Fb.runOps cfg ops).getW b).signum = s → ((Fb.runOps cfg ops).getW b).slot ≥ 0 →
+      Ev.cb ((Fb.runOps cfg ops).getW b).slot EV_FIRE .none ∈ (Fb.runOps cfg (ops ++ [op])).log := by
+  have hstep : ∃ nohang, Fb.runOps cfg (ops ++ [op]) =
+      Fb.tick defaultFuel { Fb.runOps cfg ops with stillRunning := true, log := [] } nohang := by
+    have h1 : Fb.runOps cfg (ops ++ [op]) = Fb.applyOp (Fb.runOps cfg ops) op := by
+      unfold Fb.runOps; rw [List.foldl_append]; rfl
+    have hok1 : (!({ Fb.runOps cfg ops with log := [] } : St).isOk) ≠ true := by
+      show (!(Fb.runOps cfg ops).isOk) ≠ true
+      rw [hok0]; decide
+    have hal1 : (!({ Fb.runOps cfg ops with log := [] } : St).alive) ≠ true := by
+      show (!(Fb.runOps cfg ops).alive) ≠ true
+      rw [hal]; decide
+    cases hop with
+    | inl h =>
+      subst h
+      refine ⟨true, ?_⟩
+      rw [h1]; unfold Fb.applyOp Fb.applyOp'
+      rw [if_neg hok1]; simp only []; rw [if_neg hal1]
+    | inr h =>
+      subst h
+      refine ⟨false, ?_⟩
+      rw [h1]; unfold Fb.applyOp Fb.applyOp'
+      rw [if_neg hok1]; simp only []; rw [if_neg hal1]
+  obtain ⟨nohang, he⟩ := hstep
+  rw [he] at hok ⊢
+  intro s hs hp b hb hlive hsig hslot
+  have sv := Fb.sinv_runOps cfg ops
+  have sv0 : SInv ({ Fb.runOps cfg ops with stillRunning := true, log := [] } : St) := SInv.of_same (st := Fb.runOps cfg ops) rfl rfl sv
+  have f := Fb.step_tick defaultFuel { Fb.runOps cfg ops with stillRunning := true, log := [] } nohang sv0
+  have hfin : b ∈ (Fb.tick defaultFuel { Fb.runOps cfg ops with stillRunning := true, log := [] } nohang).signals := by
+    cases f.leave b hb with
+    | inl h => exact h
+    | inr h => rw [h] at hlive; cases hlive
+  exact fb_signal_reaches_watchers_iteration cfg ops defaultFuel nohang true hv hsn hok0 hal hok s hs hp b hb hfin hsig hslot
+
+/-- The hypotheses are met and the conclusion is not vacuous: watch 0 is linked, signal 10 has been recorded, the next
+    iteration is defined, leaves the watch live, and logs its callback. -/
+example : (10 : Int) ∈ signalRange ∧ (10 : Int) ∈ (Fb.runOps .repaired [.act (.signal 0 10 0), .act (.raise 10)]).pendingSig ∧
+    3 ∈ (Fb.runOps .repaired [.act (.signal 0 10 0), .act (.raise 10)]).signals ∧
+    ((Fb.runOps .repaired [.act (.signal 0 10 0), .act (.raise 10)]).getW 3).signum = 10 ∧
+    ((Fb.runOps .repaired [.act (.signal 0 10 0), .act (.raise 10)]).getW 3).slot = 0 ∧
+    (Fb.runOps .repaired ([.act (.signal 0 10 0), .act (.raise 10)] ++ [.tick])).status = .ok ∧
+    (Fb.runOps .repaired ([.act (.signal 0 10 0), .act (.raise 10)] ++ [.tick])).live 3 = true ∧
+    Ev.cb 0 EV_FIRE .none ∈ (Fb.runOps .repaired ([.act (.signal 0 10 0), .act (.raise 10)] ++ [.tick])).log := by decide +kernel
+
+/-- … also when a timer callback of the same iteration raised another watched signal and cancelled a second watcher
+    of the first: the theorem speaks about that iteration too (watchers 0 and 3 are reached, 4 was cancelled). -/
+example : cbLog (Fb.runOps .repaired [.beh ⟨1, 0, [.raise 12, .cancel 4]⟩, .act (.signal 0 10 0), .act (.timer 1 0 0),
+    .act (.io 2 100 1 0), .act (.signal 3 12 0), .act (.signal 4 10 0), .ready 100 1, .act (.raise 10), .tick]) =
+    [.cb 1 3 .none, .cb 0 1 .none, .cb 3 1 .none, .cb 2 1 (.io 100 1)] := by decide +kernel
 
 end Tickit.Props.C18
